@@ -63,7 +63,7 @@ static lzma_ret decode_bhdr(const c04_op *op, lzma_block *b, lzma_filter *f, lzm
 	return hr;
 }
 
-bool c04_run_parse_ep(const c04_op *op, c04_res *r)
+bool c04_run_parse_ep(const c04_op *op, c04_res *r, bool reuse)
 {
 	const char *ep = op->ep;
 	c04_rng g = { op->seed * 0x100000001B3ull + 0x4C04 };
@@ -218,7 +218,21 @@ bool c04_run_parse_ep(const c04_op *op, c04_res *r)
 		uint8_t *in = c04_dup(op->in, op->in_len);
 		size_t ip = 0;
 		lzma_ret dr = lzma_index_buffer_decode(&idx, &memlimit, &c04_alloc, in, &ip, op->in_len);
-		lzma_index_hash *hh = lzma_index_hash_init(NULL, &c04_alloc);
+		lzma_index_hash *used = NULL;
+		if (reuse) {
+			// a hash object that has already seen Records and part of an Index, re-initialised instead of a new one
+			c04_rng g2 = { op->seed ^ 0x1D5EEDull };     // (own generator: the main run must see the same numbers as on a fresh object)
+			used = lzma_index_hash_init(NULL, &c04_alloc);
+			if (used != NULL) {
+				(void)lzma_index_hash_append(used, 5 + c04_below(&g2, 100), c04_below(&g2, 1000));
+				(void)lzma_index_hash_append(used, 5 + c04_below(&g2, 100), c04_below(&g2, 1000));
+				size_t up = 0;
+				const size_t un = op->in_len < 3 ? op->in_len : (size_t)c04_below(&g2, 4);
+				if (c04_below(&g2, 2) == 0 && un > 0)
+					(void)lzma_index_hash_decode(used, in, &up, un);
+			}
+		}
+		lzma_index_hash *hh = lzma_index_hash_init(used, &c04_alloc);
 		if (hh == NULL) {
 			if (c04_n_refused == 0)
 				c04_bad(r, "lzma_index_hash_init-failed-without-allocation-failure");
